@@ -5,6 +5,8 @@ import (
 	"go/constant"
 	"go/token"
 	"go/types"
+	"os"
+	"regexp"
 	"sort"
 	"strings"
 
@@ -301,6 +303,31 @@ func checkC14(p *Program, r *Report) {
 		}
 		got := strings.Join(parts, "; ")
 		okP := strings.Contains(got, "make +(#1,len(B.‹[]byte›))") && strings.Contains(got, "[#0]=B.‹uint8›") && strings.Contains(got, ",#1,_) <- B.‹[]byte›")
+		// any other construction (benign round 4, C14-y1: make(0, 1+len) and two appends): the returned byte sequence,
+		// evaluated symbolically, is the one byte p followed by the filter's bytes
+		if !okP {
+			lcx := NewLinCtx(p, fn)
+			ev := NewBSeqEval(p, lcx)
+			all := true
+			nret := 0
+			pretty := ""
+			for _, ret := range returnsOf(fn) {
+				if len(ret.Results) == 0 || isNilConst(ret.Results[0]) {
+					continue
+				}
+				nret++
+				pretty = ev.Pretty(ev.Eval(ret.Results[0]))
+				if os.Getenv("BCHVERIF_DEBUG") != "" {
+					fmt.Println("PBytes bseq:", pretty)
+				}
+				if !pbytesSeq(pretty) {
+					all = false
+				}
+			}
+			if nret > 0 && all {
+				okP, got = true, "byte sequence "+pretty
+			}
+		}
 		r.Add("C14.order", FnName(fn), "PBytes is P at offset 0 followed by the filter bytes", fn.Pos(), okP, got)
 	} else {
 		r.Unresolved("C14.order", "(*gcs.Filter).PBytes")
@@ -1396,3 +1423,10 @@ func stripConv(v ssa.Value) ssa.Value {
 		}
 	}
 }
+
+// pbytesSeq: the pretty-printed symbolic byte sequence is "the byte field p, then the bytes of field filterData".
+func pbytesSeq(s string) bool {
+	return pbytesRe.MatchString(s)
+}
+
+var pbytesRe = regexp.MustCompile(`^cat\(byte\(\w+\.p\)(\[:\+1\])? ‖ \w+\.filterData\)$`)
